@@ -51,7 +51,7 @@ func c12formulas(c *Ctx, p *pkgT, cands []*types.Func) (mindist, minmax *types.F
 	it := m.it
 	it.symbolic = true
 	it.valuation = map[string]float64{"__ranks": 1}
-	it.maxDepth = 8
+	it.maxDepth = 48
 	// box (20,30)-(60,90): midpoints 40 and 60; placements per axis
 	type place struct {
 		v    int64
@@ -284,7 +284,7 @@ func c12model(c *Ctx, p *pkgT, mindist, minmax *types.Func) {
 	m := &c12m{c: c, it: cm.it, m: cm, p: p, mindist: mindist, minmax: minmax}
 	m.it.symbolic = true
 	m.it.valuation = map[string]float64{"__ranks": 1}
-	m.it.maxDepth = 14
+	m.it.maxDepth = 48
 	m.it.maxLoop = 256
 	m.it.stub = m.stub
 	geomI := c.P.NamedType("geom", "Geom")
